@@ -7,6 +7,9 @@ model/Schedule.vos model/Schedule.vok model/Schedule.required_vos: model/Schedul
 model/DualAvg.vo model/DualAvg.glob model/DualAvg.v.beautified model/DualAvg.required_vo: model/DualAvg.v lib/Fp.vo
 model/DualAvg.vio: model/DualAvg.v lib/Fp.vio
 model/DualAvg.vos model/DualAvg.vok model/DualAvg.required_vos: model/DualAvg.v lib/Fp.vos
+model/Tree.vo model/Tree.glob model/Tree.v.beautified model/Tree.required_vo: model/Tree.v 
+model/Tree.vio: model/Tree.v 
+model/Tree.vos model/Tree.vok model/Tree.required_vos: model/Tree.v 
 proofs/Schedule_facts.vo proofs/Schedule_facts.glob proofs/Schedule_facts.v.beautified proofs/Schedule_facts.required_vo: proofs/Schedule_facts.v lib/Fp.vo model/Schedule.vo
 proofs/Schedule_facts.vio: proofs/Schedule_facts.v lib/Fp.vio model/Schedule.vio
 proofs/Schedule_facts.vos proofs/Schedule_facts.vok proofs/Schedule_facts.required_vos: proofs/Schedule_facts.v lib/Fp.vos model/Schedule.vos
@@ -16,3 +19,9 @@ Properties/C06.vos Properties/C06.vok Properties/C06.required_vos: Properties/C0
 Properties/C09.vo Properties/C09.glob Properties/C09.v.beautified Properties/C09.required_vo: Properties/C09.v lib/Fp.vo model/Schedule.vo proofs/Schedule_facts.vo
 Properties/C09.vio: Properties/C09.v lib/Fp.vio model/Schedule.vio proofs/Schedule_facts.vio
 Properties/C09.vos Properties/C09.vok Properties/C09.required_vos: Properties/C09.v lib/Fp.vos model/Schedule.vos proofs/Schedule_facts.vos
+Properties/C01.vo Properties/C01.glob Properties/C01.v.beautified Properties/C01.required_vo: Properties/C01.v model/Tree.vo
+Properties/C01.vio: Properties/C01.v model/Tree.vio
+Properties/C01.vos Properties/C01.vok Properties/C01.required_vos: Properties/C01.v model/Tree.vos
+Properties/C03.vo Properties/C03.glob Properties/C03.v.beautified Properties/C03.required_vo: Properties/C03.v model/Tree.vo
+Properties/C03.vio: Properties/C03.v model/Tree.vio
+Properties/C03.vos Properties/C03.vok Properties/C03.required_vos: Properties/C03.v model/Tree.vos
